@@ -11,7 +11,6 @@ package props
 
 import (
 	"bytes"
-	"context"
 	"encoding/json"
 	"fmt"
 	"os"
@@ -1142,4 +1141,3 @@ func runC11(ctx *vh.Ctx) error {
 	return nil
 }
 
-var _ = context.Background
